@@ -18,6 +18,8 @@ import skeleton as S
 
 PID = "C06"
 KINDS = {"d:ax", "d:yx", "d:ux", "d:uy", "d:inc", "if", "while", "forin", "break", "continue", "return"}
+# a parameter re-assigned on some paths and then used; a conditional expression (a temporary assigned in two arms)
+KINDS_EXTRA = {"d:ac", "d:yc", "d:cond", "d:ux", "d:yx", "if", "return"}
 PER_UNIT = 120
 CASES_PER_TLC = 800
 
@@ -26,10 +28,22 @@ def universe(tier, seed):
     rng = random.Random(seed)
     small = S.enumerate_methods(3, 3, KINDS)
     nxt = [b for b in S.enumerate_methods(4, 3, KINDS) if S.size_of_body(b) == 4]
+    extra = [b for b in S.enumerate_methods(4, 2, KINDS_EXTRA) if {"d:ac", "d:yc", "d:cond"} & {"d:" + st[1] for st in _flat(b) if st[0] == "d"}]
     if tier == "quick":
-        return small + rng.sample(nxt, 500)
+        return small + extra + rng.sample(nxt, 500)
+    small = small + extra
     five = [b for b in S.enumerate_methods(5, 2, {"d:ax", "d:yx", "d:ux", "if", "while", "break", "continue"}) if S.size_of_body(b) == 5]
     return small + nxt + rng.sample(five, min(len(five), 4000))
+
+
+def _flat(body):
+    out = []
+    for st in body:
+        out.append(st)
+        for part in st[1:]:
+            if isinstance(part, list):
+                out += _flat(part)
+    return out
 
 
 def build_jobs(bodies, root):
@@ -43,6 +57,7 @@ def build_jobs(bodies, root):
         jname = "py_%05d" % k
         jobs.append(dict(cmd="semantic", lang="python", files={"u.py": text}, dir=os.path.join(root, jname),
                          export=["gir", "cfg", "stmt_status_p3"], flags=["--nomock"], settings={"entry.yaml": entry}, timeout=1800,
+                         pre_hook="rdtrace", post_hook="rdtrace",
                          _r=r, _meta=dict(zip(names, chunk)), _name=jname))
     return jobs
 
@@ -79,6 +94,17 @@ def cases_of(job, res):
                 pair = [str(nm), int(b.get("stmt_id"))]
                 if pair not in lst:
                     lst.append(pair)
+    # What every consumer is handed as "the definitions reaching this use" (recorded at check_reachable_symbol_defs): when a statement's
+    # use of a name was recorded, that set replaces the name-matched in-bits for that name (the bits do not tell which symbol a name denotes).
+    recorded = {}
+    for sid, name, defs in (res.get("post") or {}).get("rd", []):
+        recorded.setdefault(sid, {})[name] = defs
+    for sid, per_name in recorded.items():
+        lst = [p for p in rd.get(sid, []) if p[0] not in per_name]
+        for name, defs in per_name.items():
+            # a name that is not defined in the method (a callee, a global) comes back as a pseudo-definition at the using statement itself
+            lst += [[name, d] for d in defs if not (d == sid and def_name(by_id.get(sid)) != name)]
+        rd[sid] = lst
     out = []
     for uid, rows in G.units_of(gir):
         for decl, sl in G.method_slices(rows):
